@@ -436,6 +436,32 @@ pub fn run(args: &[String]) -> i32 {
         );
         merge(&mut rep, &format!("all_digraphs_n{n}_mixed_kinds"), accs, &stats, json!({"nodes": n, "node_kinds": NODE_KINDS, "renamed_node": "none or any one", "carrier": "direct", "languages": 5}));
     }
+    // 2b. two nodes of every kind, every edge carrier (an alias of a container, a payload holding an array, …)
+    {
+        let (accs, stats) = explore(
+            |ch| {
+                gen_edges(ch, 2);
+            },
+            |ch, acc: &mut Acc| {
+                let edges = gen_edges(ch, 2);
+                let kinds: Vec<&'static str> = (0..2).map(|_| *ch.pick("node_kind", &NODE_KINDS)).collect();
+                let carrier = *ch.pick("carrier", &CARRIERS);
+                let rot = ch.choose("rotation", 2);
+                let lang = *ch.pick("lang", &LANGS);
+                if (0..2).any(|u| matches!(kinds[u], "alias" | "const") && edges[u].len() > 1) {
+                    acc.out_of_scope += 1;
+                    return;
+                }
+                let g = Graph { n: 2, edges, names: names(2, rot), kinds, carrier, renamed: None };
+                check_graph(&g, lang, &ch.choices(), "two-nodes-mixed-kinds-all-carriers", acc);
+            },
+            Mode::Product,
+            4,
+            report::threads(),
+            u64::MAX,
+        );
+        merge(&mut rep, "all_digraphs_n2_mixed_kinds_all_carriers", accs, &stats, json!({"nodes": 2, "node_kinds": NODE_KINDS, "carriers": CARRIERS, "rotations": 2, "languages": 5}));
+    }
     // 3. n = 4: every digraph; quick: only acyclic ones with the direct carrier, thorough: all graphs × 4 carriers
     {
         let carriers: &[&'static str] = if thorough { &["direct", "vec", "array", "generic-arg"] } else { &["direct"] };
